@@ -179,7 +179,7 @@ fn check_case(hist: &[usize], n: usize, s: usize, exact: bool, agg: Agg, timesta
 fn build(tier: Tier) -> Vec<Scenario> {
     let maxlen = match tier {
         Tier::Quick => 10,
-        Tier::Thorough => 12,
+        Tier::Thorough => 14,
     };
     let mut out = vec![];
     for n in 1..=5usize {
